@@ -57,7 +57,7 @@ CHECKS = {
          "Same exploration as C01 run on a Target wrapper that logs every target_get/get_mut/insert/remove: each read must be covered (equal, ancestor or descendant) by ProgramInfo.target_queries, each insert by target_assignments, each remove by either list.",
          "`del` mutates without assigning: removes may be covered by queries or assignments.", "3.1"),
  "C18": ("value-bfs", "model_checking", "explicit-state BFS over Value states under insert/remove actions on the real crud code",
-         "BFS from 9 seed values over insert/remove actions (paths of up to 2, thorough 3, segments incl. negative indices and quoted fields; event and metadata prefixes) to depth 2 (thorough 3) through TargetValue: read-after-insert, frame law, remove returns what get returned, no access through non-containers.",
+         "BFS from 9 seed values over insert/remove actions (paths of up to 2 to depth 2 plus paths of 3 to depth 1; thorough: paths of 2 to depth 3 and of 3 to depth 2; segments incl. negative indices and quoted fields; event and metadata prefixes) through TargetValue: read-after-insert, frame law, remove returns what get returned, no access through non-containers.",
          "Frame law restricted to locations the property decides (padding/coercion side effects are recorded, not judged).", "3.5"),
  "C19": ("kind-simulation", "model_checking", "explicit-state BFS over (value, kind) pairs; simulation relation checked on every transition",
          "BFS over pairs (v, K) with v ∈ K under get/insert/remove/union/merge applied to both components: the independent membership predicate must keep holding, and is_superset must agree with membership.",
